@@ -257,14 +257,14 @@ class Build:
             self._mark("shared_" + cfg)
         return out
 
-    def exe(self, name, sources, variant, cfg, extra=(), libs=(), cxx=False, extra_objs=(), renamed=False):
+    def exe(self, name, sources, variant, cfg, extra=(), libs=(), cxx=False, extra_objs=(), renamed=False, hflags=None):
         """compile harness sources against a library variant; returns the executable path."""
         lib = self.lib_renamed(cfg) if renamed else self.lib(variant, cfg)
         V = VARIANTS[variant]
         h = hashlib.sha256()
         for s in sources:
             h.update(open(s, "rb").read())
-        h.update(repr((variant, cfg, tuple(extra), tuple(libs), cxx, renamed)).encode())
+        h.update(repr((variant, cfg, tuple(extra), tuple(libs), cxx, renamed, hflags)).encode())
         out = os.path.join(self.dir, "%s_%s_%s_%s" % (name, variant, cfg, h.hexdigest()[:10]))
         with self._lock():
             if os.path.exists(out):
@@ -272,7 +272,7 @@ class Build:
             cc = V["cc"]
             if cxx:
                 cc = "g++" if cc == "gcc" else "clang++"
-            harness_flags = [f for f in V["cflags"]]
+            harness_flags = list(hflags) if hflags is not None else [f for f in V["cflags"]]
             cmd = [cc] + harness_flags + self.defs + self.inc + ["-I" + os.path.join(VERIF, "harness")] + list(extra) + \
                 list(sources) + list(extra_objs) + [lib] + V["ld"] + ["-lm", "-lpthread", "-ldl"] + list(libs) + ["-o", out + ".tmp"]
             run(cmd)
